@@ -22,6 +22,14 @@ type Rmgr struct {
 	rec *Recorder
 }
 
+// atomicCtx: see store.go `atomicWrite` — plugin writes are atomic with respect to the caller's cancellation
+func atomicCtx(ctx context.Context) (context.Context, error) {
+	if err := ctx.Err(); err != nil {
+		return ctx, err
+	}
+	return context.WithoutCancel(ctx), nil
+}
+
 func resList(rs []resourcetypes.Resources) []Res {
 	out := make([]Res, len(rs))
 	for i, r := range rs {
@@ -35,6 +43,11 @@ func (m *Rmgr) AddNode(ctx context.Context, node string, opts resourcetypes.Reso
 	if err != nil {
 		return nil, err
 	}
+	ctx, cerr := atomicCtx(ctx)
+	if cerr != nil {
+		m.rec.done(idx, cerr)
+		return nil, cerr
+	}
 	r, err := m.Manager.AddNode(ctx, node, opts, info)
 	m.rec.done(idx, err)
 	return r, err
@@ -44,6 +57,11 @@ func (m *Rmgr) RemoveNode(ctx context.Context, node string) error {
 	idx, err := m.rec.enter("pluginRemoveNode", node, "", "")
 	if err != nil {
 		return err
+	}
+	ctx, cerr := atomicCtx(ctx)
+	if cerr != nil {
+		m.rec.done(idx, cerr)
+		return cerr
 	}
 	err = m.Manager.RemoveNode(ctx, node)
 	m.rec.done(idx, err)
@@ -79,6 +97,11 @@ func (m *Rmgr) SetNodeResourceCapacity(ctx context.Context, node string, nr, req
 	if err != nil {
 		return nil, nil, err
 	}
+	ctx, cerr := atomicCtx(ctx)
+	if cerr != nil {
+		m.rec.done(idx, cerr)
+		return nil, nil, cerr
+	}
 	b, a, err := m.Manager.SetNodeResourceCapacity(ctx, node, nr, req, delta, incr)
 	m.rec.done(idx, err)
 	return b, a, err
@@ -90,6 +113,11 @@ func (m *Rmgr) SetNodeResourceUsage(ctx context.Context, node string, nr, req re
 		return nil, nil, err
 	}
 	m.rec.setData(idx, map[string]any{"resources": resList(ws)})
+	ctx, cerr := atomicCtx(ctx)
+	if cerr != nil {
+		m.rec.done(idx, cerr)
+		return nil, nil, cerr
+	}
 	b, a, err := m.Manager.SetNodeResourceUsage(ctx, node, nr, req, ws, delta, incr)
 	m.rec.done(idx, err)
 	return b, a, err
@@ -120,6 +148,11 @@ func (m *Rmgr) Alloc(ctx context.Context, node string, count int, opts resourcet
 	if err != nil {
 		return nil, nil, err
 	}
+	ctx, cerr := atomicCtx(ctx)
+	if cerr != nil {
+		m.rec.done(idx, cerr)
+		return nil, nil, cerr
+	}
 	ws, es, err := m.Manager.Alloc(ctx, node, count, opts)
 	if err == nil {
 		m.rec.setData(idx, map[string]any{"count": count, "resources": resList(ws)})
@@ -136,6 +169,11 @@ func (m *Rmgr) RollbackAlloc(ctx context.Context, node string, ws []resourcetype
 		return err
 	}
 	m.rec.setData(idx, map[string]any{"resources": resList(ws)})
+	ctx, cerr := atomicCtx(ctx)
+	if cerr != nil {
+		m.rec.done(idx, cerr)
+		return cerr
+	}
 	err = m.Manager.RollbackAlloc(ctx, node, ws)
 	m.rec.done(idx, err)
 	return err
@@ -145,6 +183,11 @@ func (m *Rmgr) Realloc(ctx context.Context, node string, origin, opts resourcety
 	idx, err := m.rec.enter("pluginRealloc", node, "", "")
 	if err != nil {
 		return nil, nil, nil, err
+	}
+	ctx, cerr := atomicCtx(ctx)
+	if cerr != nil {
+		m.rec.done(idx, cerr)
+		return nil, nil, nil, cerr
 	}
 	e, d, w, err := m.Manager.Realloc(ctx, node, origin, opts)
 	if err == nil {
@@ -160,6 +203,11 @@ func (m *Rmgr) RollbackRealloc(ctx context.Context, node string, delta resourcet
 		return err
 	}
 	m.rec.setData(idx, map[string]any{"delta": WorkloadRes(delta)})
+	ctx, cerr := atomicCtx(ctx)
+	if cerr != nil {
+		m.rec.done(idx, cerr)
+		return cerr
+	}
 	err = m.Manager.RollbackRealloc(ctx, node, delta)
 	m.rec.done(idx, err)
 	return err
